@@ -41,7 +41,7 @@ StepDefect(x) == IF ~StepNumeric(x) THEN "non-numeric step" ELSE IF x.n = 0 THEN
 First(ss) == LET bad == {i \in 1..Len(ss) : ss[i] # ""} IN
              IF bad = {} THEN "" ELSE ss[CHOOSE i \in bad : \A j \in bad : i <= j]
 TermDefect(t, f) ==
-  CASE t.k \in {"star", "qmark"} -> ""
+  CASE t.k \in {"star", "qmark", "empty"} -> ""
     [] t.k = "one"      -> AtomDefect(t.a, f)
     [] t.k = "range"    -> First(<<AtomDefect(t.a, f), AtomDefect(t.b, f),
                                   IF AtomKnown(t.a, f) /\ AtomKnown(t.b, f) /\ AtomVal(t.a, f) > AtomVal(t.b, f) THEN "inverted range" ELSE "">>)
@@ -53,12 +53,15 @@ TermDefect(t, f) ==
 TermOK(t, f) == TermDefect(t, f) = ""
 
 (* '?' is documented for the two day fields only; elsewhere the documentation is silent *)
-TermDocumented(t, f) == t.k = "qmark" => f \in {4, 6}
+(* an empty list item ("1,,2", ",") is not in the documented grammar either: the parser may refuse it or   *)
+(* give it some meaning (kind "empty"); the only thing required then is that Next returns                 *)
+TermDocumented(t, f) == (t.k = "qmark" => f \in {4, 6}) /\ t.k # "empty"
 
 (* ---- the set of values a well-formed term stands for ---- *)
 Stepped(lo, hi, s) == {v \in lo..hi : (v - lo) % s = 0}
 TermSet(t, f) ==
   CASE t.k \in {"star", "qmark"} -> Lo[f]..Hi[f]
+    [] t.k = "empty"    -> {}
     [] t.k = "one"      -> {AtomVal(t.a, f)}
     [] t.k = "range"    -> AtomVal(t.a, f)..AtomVal(t.b, f)
     [] t.k = "rstep"    -> Stepped(AtomVal(t.a, f), AtomVal(t.b, f), t.s.n)
@@ -70,20 +73,16 @@ FieldOK(ts, f) == FieldDefect(ts, f) = ""
 FieldDocumented(ts, f) == \A i \in 1..Len(ts) : TermDocumented(ts[i], f)
 FieldSet(ts, f) == UNION {TermSet(ts[i], f) : i \in 1..Len(ts)}
 
-(* Is the field "unrestricted" (a star) for the either-day rule?  Only a     *)
-(* literal star or question mark makes it so (documented rule: if both day   *)
-(* fields are restricted, i.e. not a star, either may match): a field        *)
-(* written with numbers or                                                   *)
-(* names is restricted even when it happens to allow every value (1-31,      *)
-(* sun-sat, 1/1, 1-15,16-31).                                                *)
-(*   "yes"    the field is exactly * or ?                                    *)
-(*   "no"     no star or question-mark term anywhere                         *)
-(*   "either" the documentation does not settle it: a star inside a list, or *)
-(*            "*/1"; both readings are accepted.                             *)
-Star3(ts, f) ==
-  IF Len(ts) = 1 /\ ts[1].k \in {"star", "qmark"} THEN "yes"
-  ELSE IF \A i \in 1..Len(ts) : ts[i].k \notin {"star", "qmark"} /\ ~(ts[i].k = "starstep" /\ ts[i].s.n = 1) THEN "no"
-  ELSE "either"
+(* Is the field "unrestricted" (a star) for the either-day rule?  A field is *)
+(* unrestricted when it is written with a star: a star or question-mark      *)
+(* term, also with an explicit step of one ("*/1" is every value, written    *)
+(* with a star), alone or as an item of a list.  (Documented rule: if both   *)
+(* day fields are restricted, i.e. not a star, either may match.)  A field   *)
+(* written with numbers or names only is restricted even when it happens to  *)
+(* allow every value (1-31, sun-sat, 1/1, 1-15,16-31); so is a star with a   *)
+(* step of two or more.                                                      *)
+StarTerm(t) == t.k \in {"star", "qmark"} \/ (t.k = "starstep" /\ t.s.n = 1)
+Star3(ts, f) == IF \E i \in 1..Len(ts) : StarTerm(ts[i]) THEN "yes" ELSE "no"
 
 (* ---- parser options: which places an expression has ---- *)
 (* places: <<p1..p6>>, each "no" | "yes" | "opt" (only second and day of week can be "opt") *)
